@@ -122,7 +122,7 @@ pub fn gen(seed: u64, count: usize, tier: &str, params: &Params) -> Vec<Value> {
     let mut rng = Rng(seed ^ 0x5057);
     let kinds: Vec<&str> = params.get("kinds").map(|s| s.split('/').collect()).unwrap_or_else(|| vec!["partition", "select", "bulk"]);
     let oor_den: u64 = params.get("oor_den").map(|s| s.parse().unwrap()).unwrap_or(8);
-    let maxlen: i64 = if tier == "thorough" { 96 } else { 40 };
+    let maxlen: i64 = if tier == "thorough" { 64 } else { 40 };
     let mut cases = Vec::new();
     for c in 0..count {
         let n = if c % 17 == 0 { rng.range(0, 3) } else { rng.range(1, maxlen) };
